@@ -99,7 +99,8 @@ class BleController(AbstractController):
             discovery = BleDiscovery(self, device, data, advertisement_data)
             logger.debug("BLE device for %s found, fulfilling futures", data.id)
             for future in futures:
-                future.set_result(discovery)
+                if not future.done():
+                    future.set_result(discovery)
             futures.clear()
 
         if old_discovery:
@@ -140,6 +141,7 @@ class BleController(AbstractController):
         )
 
     async def async_find(self, device_id: str, timeout: float = 10) -> BleDiscovery:
+        device_id = device_id.lower()
         if discovery := self.discoveries.get(device_id):
             logger.debug("Discovery for %s already found", device_id)
             return discovery
@@ -150,6 +152,7 @@ class BleController(AbstractController):
             timeout,
         )
         future = asyncio.get_running_loop().create_future()
+        self._ble_futures.setdefault(device_id, []).append(future)
         try:
             async with asyncio_timeout(timeout):
                 return await future
